@@ -50,7 +50,8 @@ ConfTable == <<
     << S(a, <<120, 32, 121>>), Bo(<<65>>, 1), Bo(<<66>>, 0) >>,  \* 6  a = 'x y', A = true, B = false
     << S(<<65>>, <<64, 97, 64>>), S(a, <<90>>), I(<<66>>, 0) >>, \* 7  A = '@a@', a = 'Z', B = 0
     << S(a, <<88>>), S(b, <<89, 89>>), S(<<65>>, <<118>>), I(<<66>>, -3) >>,  \* 8  a = 'X', b = 'YY', A = 'v', B = -3
-    << S(<<65>>, <<36, 123, 97, 125>>), S(a, <<90>>) >>          \* 9  A = '${a}', a = 'Z'
+    << S(<<65>>, <<36, 123, 97, 125>>), S(a, <<90>>) >>,         \* 9  A = '${a}', a = 'Z'
+    << S(<<65>>, <<118>>), Bo(<<66>>, 1) >>                      \* 10 A = 'v', B = true (a, b undefined)
 >>
 Formats == <<"meson", "cmake", "cmake@">>
 
@@ -75,6 +76,8 @@ LineInScope(line, conf, fmt) ==
                 \* a token of the rest that is itself a key is outside the documentation
                 /\ \A j \in 3..Len(toks) : ~ Defined(conf, toks[j])
                 /\ (Head(toks) = KwCmakedefine01 => Len(toks) = 2)
+                \* the keyword is not used as a name
+                /\ \A j \in 2..Len(toks) : ~ Contains(toks[j], KwCmakedefine)
         ELSE TRUE
 \* cmake formats: what happens to a value that itself contains placeholder characters is not
 \* documented (the statement promises "never scanned again" for the meson format only)
